@@ -99,7 +99,13 @@ where
             if result.timed_out()
                 || (duration.as_secs() == 0 && duration.subsec_nanos() < 1_000_000)
             {
-                return None;
+                // the wake-up may have been the notification for a new element:
+                // never leave without looking, or the element stays queued while
+                // other receivers keep sleeping
+                return match queue.pop_front() {
+                    Some(Control::Elem(value)) => Some(value),
+                    Some(Control::Unblock) | None => None,
+                };
             }
         }
     }
